@@ -1,4 +1,5 @@
 import PandoraModel.Properties.C10
+import PandoraModel.Properties.C10C12
 open Pandora.C10 Pandora.Filter Pandora.Blocks
 #print axioms blocked_eq_direct
 #print axioms sorted_isKth
@@ -22,3 +23,25 @@ open Pandora.C10 Pandora.Filter Pandora.Blocks
 #print axioms regularize_other_bits
 #print axioms regularize_validity
 #print axioms regularize_idempotent
+-- C10 ∘ C12: median_for_intervals with C12's regularisation model as the producer of the bands and of the mask
+#print axioms Pandora.C10C12.graphRegularization_frame
+#print axioms Pandora.C10C12.regularization_frame
+#print axioms Pandora.C10C12.intervals_noreg
+#print axioms Pandora.C10C12.intervals_bands_median
+#print axioms Pandora.C10C12.intervals_regMask
+#print axioms Pandora.C10C12.intervals_flags
+#print axioms Pandora.C10C12.intervals_flagSpec
+#print axioms Pandora.C10C12.intervals_bit11_iff
+#print axioms Pandora.IntervalRuns.borders_length
+#print axioms Pandora.IntervalRuns.cover_runs
+#print axioms Pandora.IntervalRuns.inSegments_iff
+#print axioms Pandora.C10C12.intervals_bit11_lowConfidence
+#print axioms Pandora.C10C12.intervals_other_bits
+#print axioms Pandora.C10C12.intervals_validity
+#print axioms Pandora.C10C12.intervals_border
+#print axioms Pandora.C10C12.intervals_frame
+#print axioms Pandora.C10C12.changed_implies_flagged
+#print axioms Pandora.C10C12.changed_implies_bit11
+#print axioms Pandora.C10C12.intervals_widen
+#print axioms Pandora.C10C12.intervals_twice_flags
+#print axioms Pandora.C10C12.flagged_unchanged_example
